@@ -54,6 +54,9 @@ type dsSite struct {
 	File string `json:"file"`
 	Line int    `json:"line"`
 	How  string `json:"how"`
+	// Section: number of lock operations the analysis had seen when it reached the site; two sites of one
+	// function with the same number have no Lock/Unlock/RLock/RUnlock between them (one critical section)
+	Section int `json:"section"`
 }
 
 type dsMark struct {
@@ -126,14 +129,14 @@ func (a *dsAn) pos(n ast.Node) (string, int) {
 
 func (a *dsAn) site(n ast.Node, v, kind string, held lockState, how string) {
 	f, l := a.pos(n)
-	a.out.Sites = append(a.out.Sites, dsSite{v, kind, held.String(), a.fn, f, l, how})
+	a.out.Sites = append(a.out.Sites, dsSite{v, kind, held.String(), a.fn, f, l, how, a.out.LockCalls})
 }
 
 func (a *dsAn) leak(n ast.Node, v, how string) {
 	f, l := a.pos(n)
-	a.out.Leaks = append(a.out.Leaks, dsSite{v, "W", "NoLock", a.fn, f, l, how})
+	a.out.Leaks = append(a.out.Leaks, dsSite{v, "W", "NoLock", a.fn, f, l, how, a.out.LockCalls})
 	// conservative: whoever gets hold of the map may write it without the lock
-	a.out.Sites = append(a.out.Sites, dsSite{v, "W", "NoLock", a.fn, f, l, "escape: " + how})
+	a.out.Sites = append(a.out.Sites, dsSite{v, "W", "NoLock", a.fn, f, l, "escape: " + how, a.out.LockCalls})
 }
 
 func (a *dsAn) anomaly(n ast.Node, what string) {
